@@ -576,6 +576,11 @@ static size_t get_value_size(carquet_physical_type_t type, int32_t type_length) 
  * ============================================================================
  */
 
+/* A page header is parsed from a window of this many bytes first; headers
+ * with long statistics get larger windows up to the maximum. */
+#define CARQUET_PAGE_HEADER_WINDOW 256
+#define CARQUET_PAGE_HEADER_WINDOW_MAX (1024 * 1024)
+
 /**
  * Offsets come from the footer and sizes from the page header; both are
  * untrusted. Returns the number of bytes available at page_offset (0 if the
@@ -664,7 +669,7 @@ static carquet_status_t load_dictionary_page_mmap(
     parquet_page_header_t page_header;
     size_t header_size;
     carquet_status_t status = parquet_parse_page_header(
-        header_ptr, available < 256 ? available : 256, &page_header, &header_size, error);
+        header_ptr, available < CARQUET_PAGE_HEADER_WINDOW_MAX ? available : CARQUET_PAGE_HEADER_WINDOW_MAX, &page_header, &header_size, error);
     if (status != CARQUET_OK) {
         return status;
     }
@@ -768,24 +773,52 @@ static carquet_status_t read_stored_page_unlocked(
 
     *compressed_out = NULL;
 
-    if (fseek(file, offset, SEEK_SET) != 0) {
-        CARQUET_SET_ERROR(error, CARQUET_ERROR_FILE_SEEK, "Failed to seek to page");
-        return CARQUET_ERROR_FILE_SEEK;
-    }
+    /* Read page header. Most headers fit in a few dozen bytes, but a header
+     * may carry min/max statistics of arbitrary length (long strings), so a
+     * header that does not parse from a full window is retried with a larger
+     * one instead of being declared corrupt. */
+    uint8_t small_buf[CARQUET_PAGE_HEADER_WINDOW];
+    uint8_t* header_buf = small_buf;
+    uint8_t* large_buf = NULL;
+    size_t window = sizeof(small_buf);
+    carquet_status_t status;
 
-    /* Read page header */
-    uint8_t header_buf[256];
-    size_t header_read = fread(header_buf, 1, sizeof(header_buf), file);
-    if (header_read < 8) {
-        CARQUET_SET_ERROR(error, CARQUET_ERROR_FILE_READ, "Failed to read page header");
-        return CARQUET_ERROR_FILE_READ;
-    }
+    for (;;) {
+        if (fseek(file, offset, SEEK_SET) != 0) {
+            free(large_buf);
+            CARQUET_SET_ERROR(error, CARQUET_ERROR_FILE_SEEK, "Failed to seek to page");
+            return CARQUET_ERROR_FILE_SEEK;
+        }
 
-    carquet_status_t status = parquet_parse_page_header(
-        header_buf, header_read, page_header, header_size, error);
-    if (status != CARQUET_OK) {
-        return status;
+        size_t header_read = fread(header_buf, 1, window, file);
+        if (header_read < 8) {
+            free(large_buf);
+            CARQUET_SET_ERROR(error, CARQUET_ERROR_FILE_READ, "Failed to read page header");
+            return CARQUET_ERROR_FILE_READ;
+        }
+
+        status = parquet_parse_page_header(
+            header_buf, header_read, page_header, header_size, error);
+        if (status == CARQUET_OK) {
+            break;
+        }
+        if (header_read < window || window >= CARQUET_PAGE_HEADER_WINDOW_MAX) {
+            /* The file ends here, or the header is implausibly large */
+            free(large_buf);
+            return status;
+        }
+
+        window *= 16;
+        uint8_t* grown = realloc(large_buf, window);
+        if (!grown) {
+            free(large_buf);
+            CARQUET_SET_ERROR(error, CARQUET_ERROR_OUT_OF_MEMORY, "Failed to allocate page header buffer");
+            return CARQUET_ERROR_OUT_OF_MEMORY;
+        }
+        large_buf = grown;
+        header_buf = grown;
     }
+    free(large_buf);
 
     if (page_header->compressed_page_size < 0 || page_header->uncompressed_page_size < 0) {
         CARQUET_SET_ERROR(error, CARQUET_ERROR_INVALID_PAGE, "Negative page size");
@@ -977,7 +1010,7 @@ static carquet_status_t load_next_page_mmap(
     parquet_page_header_t page_header;
     size_t header_size;
     carquet_status_t status = parquet_parse_page_header(
-        header_ptr, available < 256 ? available : 256, &page_header, &header_size, error);
+        header_ptr, available < CARQUET_PAGE_HEADER_WINDOW_MAX ? available : CARQUET_PAGE_HEADER_WINDOW_MAX, &page_header, &header_size, error);
     if (status != CARQUET_OK) {
         return status;
     }
@@ -999,7 +1032,7 @@ static carquet_status_t load_next_page_mmap(
         }
         header_ptr = mmap_data + page_offset;
         status = parquet_parse_page_header(
-            header_ptr, available < 256 ? available : 256, &page_header, &header_size, error);
+            header_ptr, available < CARQUET_PAGE_HEADER_WINDOW_MAX ? available : CARQUET_PAGE_HEADER_WINDOW_MAX, &page_header, &header_size, error);
         if (status != CARQUET_OK) {
             return status;
         }
